@@ -13,6 +13,7 @@ import (
 
 	"github.com/libp2p/go-libp2p/core/network"
 	"github.com/libp2p/go-libp2p/core/peer"
+	basichost "github.com/libp2p/go-libp2p/p2p/host/basic"
 	"github.com/libp2p/go-libp2p/p2p/host/eventbus"
 	"github.com/libp2p/go-libp2p/p2p/host/peerstore/pstoremem"
 	"github.com/libp2p/go-libp2p/p2p/net/conngater"
@@ -60,11 +61,13 @@ type oaddr struct {
 type otarget struct {
 	peer  int
 	addrs []*oaddr
+	api   [2]int // per phase: the call that starts the outbound attempt (see dialapi_test.go)
 }
 
 type outScenario struct {
 	setup, change []op
 	reopen        bool
+	host          bool // a BasicHost sits on top of the swarm (its Connect / NewStream start some attempts)
 	targets       []otarget
 }
 
@@ -152,6 +155,25 @@ func drawOutScenario(rt *rapid.T, w *world) *outScenario {
 		}
 		sc.targets = append(sc.targets, tg)
 	}
+	// which call starts each attempt: the swarm's own entry points (explicit dial, implicit dial of
+	// NewStream) and, in a third of the cases, those of a BasicHost on top of the swarm
+	sc.host = rapid.IntRange(0, 2).Draw(rt, "hostOnTop") == 0
+	apis := []int{apiDialPeer, apiSwarmNewStream}
+	if sc.host {
+		apis = []int{apiDialPeer, apiSwarmNewStream, apiHostConnect, apiHostConnect, apiHostNewStream, apiHostNewStream}
+	}
+	usesHost := false
+	for ti := range sc.targets {
+		for ph := range sc.targets[ti].api {
+			a := rapid.SampledFrom(apis).Draw(rt, "api")
+			sc.targets[ti].api[ph] = a
+			usesHost = usesHost || hostAPI(a)
+		}
+	}
+	if sc.host && !usesHost {
+		// (construction, not rejection: a host that starts no attempt would only sit there)
+		sc.targets[0].api[0] = apiHostConnect + rapid.IntRange(0, 1).Draw(rt, "hostapi")
+	}
 	return sc
 }
 
@@ -165,9 +187,9 @@ func (sc *outScenario) fingerprint(w *world) string {
 	for _, o := range sc.change {
 		b.WriteString(o.describe(w) + ";")
 	}
-	fmt.Fprintf(&b, "|%v", sc.reopen)
+	fmt.Fprintf(&b, "|%v|host=%v", sc.reopen, sc.host)
 	for _, t := range sc.targets {
-		fmt.Fprintf(&b, "|p%d", t.peer)
+		fmt.Fprintf(&b, "|p%d via %s,%s", t.peer, apiNames[t.api[0]], apiNames[t.api[1]])
 		for _, a := range t.addrs {
 			fmt.Fprintf(&b, ",%s", a.stored)
 			for _, e := range a.eps {
@@ -319,7 +341,10 @@ func TestOutboundSwarm(t *testing.T) {
 			if err != nil {
 				rt.Fatalf("peerstore: %v", err)
 			}
-			defer ps.Close()
+			if sc.host {
+				ps.AddPrivKey(local.ID, local.Priv)
+				ps.AddPubKey(local.ID, local.Pub)
+			}
 			res := &fakeResolver{comp: map[string][]ma.Multiaddr{}, dnsaddr: map[string][]ma.Multiaddr{}}
 			script := map[string]*oaddr{}
 			for _, tg := range sc.targets {
@@ -356,14 +381,29 @@ func TestOutboundSwarm(t *testing.T) {
 			if err != nil {
 				rt.Fatalf("swarm: %v", err)
 			}
-			defer sw.Close()
+			var host *basichost.BasicHost
+			defer func() {
+				if host != nil {
+					host.Close() // closes the swarm and the peerstore
+					return
+				}
+				sw.Close()
+				ps.Close()
+			}()
 			for _, tr := range set.All() {
-				if err := sw.AddTransport(tr); err != nil {
+				if err := sw.AddTransport(answeringTransport{tr}); err != nil {
 					rt.Fatalf("add transport: %v", err)
 				}
 			}
 			nf := &notifiee{}
 			sw.Notify(nf.bundle())
+			if sc.host {
+				if host, err = basichost.NewHost(sw, &basichost.HostOpts{DisableSignedPeerRecord: true}); err != nil {
+					rt.Fatalf("host: %v", err)
+				}
+				host.Start()
+				labels["basichost-on-top"] = true
+			}
 			for _, tg := range sc.targets {
 				for _, a := range tg.addrs {
 					ps.AddAddr(w.peers[tg.peer], a.stored, time.Hour)
@@ -384,12 +424,12 @@ func TestOutboundSwarm(t *testing.T) {
 					time.Sleep(time.Minute) // dial back-off of failed addresses (5 s) is over
 					synctest.Wait()
 				}
-				ctxHist := fmt.Sprintf("phase %d, rules after:\n  %s\n", phase, strings.Join(hist, "\n  "))
-				type result struct {
-					conn network.Conn
-					err  error
+				var started []string
+				for _, tg := range sc.targets {
+					started = append(started, fmt.Sprintf("%s(peer%d)", apiNames[tg.api[phase]], tg.peer))
 				}
-				results := make([]result, len(sc.targets))
+				ctxHist := fmt.Sprintf("phase %d, rules after:\n  %s\nattempts started concurrently (no connection exists; BasicHost on top: %v): %s\n", phase, strings.Join(hist, "\n  "), sc.host, strings.Join(started, ", "))
+				results := make([]attemptResult, len(sc.targets))
 				var wg sync.WaitGroup
 				for i, tg := range sc.targets {
 					wg.Add(1)
@@ -397,8 +437,7 @@ func TestOutboundSwarm(t *testing.T) {
 						defer wg.Done()
 						ctx, cancel := context.WithTimeout(context.Background(), 30*time.Second)
 						defer cancel()
-						c, err := sw.DialPeer(ctx, w.peers[tg.peer])
-						results[i] = result{c, err}
+						results[i] = startOutbound(ctx, tg.api[phase], sw, host, w.peers[tg.peer])
 					}()
 				}
 				wg.Wait()
@@ -426,11 +465,14 @@ func TestOutboundSwarm(t *testing.T) {
 				for i, tg := range sc.targets {
 					p := w.peers[tg.peer]
 					r := results[i]
+					api := apiNames[tg.api[phase]]
+					labels["via:"+api] = true
 					pv := m.peerVerdict(tg.peer)
 					if pv == yes {
 						labels["blocked-peer-dialled"] = true
+						labels["blocked-peer-dialled via:"+api] = true
 						if r.err == nil {
-							rt.Fatalf("%sDialPeer(peer%d) returned a connection (%s) although the peer is blocked", ctxHist, tg.peer, r.conn.RemoteMultiaddr())
+							rt.Fatalf("%s%s(peer%d) succeeded (connection to %v) although the peer is blocked", ctxHist, api, tg.peer, r.addr)
 						}
 						if perPeerDials[p] != 0 {
 							rt.Fatalf("%s%d transport dials towards blocked peer%d", ctxHist, perPeerDials[p], tg.peer)
@@ -441,9 +483,9 @@ func TestOutboundSwarm(t *testing.T) {
 							rt.Fatalf("%sConnsToPeer(peer%d) holds a connection to %s although %s", ctxHist, tg.peer, c.RemoteMultiaddr(), why)
 						}
 					}
-					if r.err == nil {
-						if v, why := remoteVerdict(m, w, p, r.conn.RemoteMultiaddr()); v == yes {
-							rt.Fatalf("%sDialPeer(peer%d) returned a connection to %s although %s", ctxHist, tg.peer, r.conn.RemoteMultiaddr(), why)
+					if r.err == nil && r.addr != nil {
+						if v, why := remoteVerdict(m, w, p, r.addr); v == yes {
+							rt.Fatalf("%s%s(peer%d) handed out a connection to %s although %s", ctxHist, api, tg.peer, r.addr, why)
 						}
 					}
 					// classification + positive control
@@ -472,14 +514,16 @@ func TestOutboundSwarm(t *testing.T) {
 					}
 					if pv == no && anyEp && allBlocked {
 						labels["all-addrs-blocked"] = true
+						labels["all-addrs-blocked via:"+api] = true
 						if r.err == nil {
-							rt.Fatalf("%sDialPeer(peer%d) succeeded although every address is blocked", ctxHist, tg.peer)
+							rt.Fatalf("%s%s(peer%d) succeeded although every address is blocked", ctxHist, api, tg.peer)
 						}
 					}
 					if pv == no && anyGoodFree {
 						labels["free-remote-connected"] = true
+						labels["free-remote-connected via:"+api] = true
 						if r.err != nil {
-							rt.Fatalf("%sDialPeer(peer%d) failed (%v) although the peer is not blocked and has an unblocked, answering address\ntargets: %s", ctxHist, tg.peer, r.err, sc.fingerprint(w))
+							rt.Fatalf("%s%s(peer%d) failed (%v) although the peer is not blocked and has an unblocked, answering address\ntargets: %s", ctxHist, api, tg.peer, r.err, sc.fingerprint(w))
 						}
 					}
 					if pv == no && r.err == nil && !allBlocked {
@@ -513,7 +557,7 @@ func TestOutboundSwarm(t *testing.T) {
 			var ts []string
 			for _, tg := range sc.targets {
 				for _, a := range tg.addrs {
-					s := fmt.Sprintf("peer%d %s %s succeed=%v", tg.peer, oaKindNames[a.kind], a.stored, a.succeed)
+					s := fmt.Sprintf("peer%d (via %s, then %s) %s %s succeed=%v", tg.peer, apiNames[tg.api[0]], apiNames[tg.api[1]], oaKindNames[a.kind], a.stored, a.succeed)
 					for _, e := range a.eps {
 						s += " -> " + e.addr.String()
 					}
